@@ -1,6 +1,6 @@
 (* C01 — the assembled image is the ISA encoding of the source. *)
 From Coq Require Import ZArith.
-From Lace Require Import Word Machine Isa Asm AsmProofs.
+From Lace Require Import Word Machine Isa Asm AsmProofs AsmWf.
 Open Scope N_scope.
 
 (** Every word the assembler emits for a statement (operands as the parser delivers them)
@@ -38,6 +38,26 @@ Theorem C01_field : forall line r nbits, 1 <= nbits -> nbits <= 15 ->
   ((- p <= d < p)%Z -> exists o, bit_offs line (LRef r) nbits = Ok o).
 Proof. exact bit_offs_spec. Qed.
 Print Assumptions C01_field.
+
+(** Whole programs: for EVERY source text the assembler accepts (any layout, any feature setting,
+    any inherited symbol table), every statement has well-formed operands and the image is, word
+    for word, the ISA encoding of the statements — the i-th word decodes to the i-th statement,
+    with its PC-relative field the one [bit_offs] computes for the statement's line — and every
+    word and the origin are 16-bit values. *)
+Theorem C01_image : forall feat sym0 src im sym1,
+  assemble feat sym0 src = (Ok im, sym1) ->
+  exists a, assemble_air feat sym0 src = (Ok a, sym1) /\
+    i_orig im = a_orig a /\ i_bps im = a_bps a /\ ast_ok (a_ast a) /\ orig_ok (i_orig im) /\
+    Forall (fun w => w < W) (i_words im) /\
+    Forall2 (fun ln w => exists o, field_bound (al_stmt ln) o /\ w = encode_with (al_stmt ln) o /\
+                                   decode w = instr_of (al_stmt ln) o /\
+                                   match pcrel_of (al_stmt ln) with
+                                   | Some (l, k) => bit_offs (al_line ln) l k = Ok o
+                                   | None => True
+                                   end)
+            (a_ast a) (i_words im).
+Proof. exact assemble_image. Qed.
+Print Assumptions C01_image.
 
 (** Non-vacuity: `ldr r0 r1 #-1` (offset kept as the byte xFF) emits x607F = LDR R0,R1,#-1, and
     `br` to a label three statements back emits x0FFC. *)
